@@ -211,11 +211,20 @@ dnfAndImpliesNegation(DNF_And xx, DNF_And yy)
 	return yyi == yy->argc;
 }
 
+#ifdef ALDOR_VERIF
+/* Verification hook: counts cancellations against a multi-literal term. */
+int	verifDnfMultiCancel = 0;
+#endif
+
 local DNF_And
 dnfAndCancelNegation(DNF_And xx, DNF_And yy)
 {
 	DNF_And result;
 	int	xxi, yyi, rri;
+
+#ifdef ALDOR_VERIF
+	if (yy->argc > 1) verifDnfMultiCancel++;
+#endif
 
 	/* xx implies ~yy if each atom in ~yy can be found in xx. */
 	assert (xx->argc >= yy->argc);
